@@ -1,7 +1,12 @@
 // Package c16 holds the check of property C16 (see c16_test.go).  This file documents the findings of the check;
 // it contains no code.
 //
-// # C16 findings on the unchanged tree
+// # C16 findings
+//
+// Status (later round): findings 1, 2, 3, 6, 10, 11 and 12 below have since been fixed in /repo (see the "fixed:" lines of
+// /verif/KNOWN_FINDINGS.txt); 4, 5, 7, 8 and 9 are listed there as known.  The text below describes the tree as it was
+// when they were found.  The in-process reopen (restart emulation) added afterwards showed no before/after difference
+// on the unchanged tree, so it has no entry here.
 //
 // All of these fail TestC16History on the unmodified /repo.  Each has a hand-minimised replay file under
 // harness/props/c16/findings/ (format of $VERIF_LASTFAIL; run with
